@@ -162,7 +162,8 @@ def check_forwarding(c, repo):
     pty = [k for k in calls_in(sp.node) if callee_last(k) == '_spawnpty']
     c.need(len(pty) == 1, '_spawn: self._spawnpty(...) not found')
     k = pty[0]
-    c.check(k.args and norm(k.args[0]) == 'self.args', sp, k, 'argv handed to ptyprocess is self.args', witness=norm(k), kind='ast', tag='argv')
+    argv = call_arg(k, 'args', 0)
+    c.check(argv is not None and norm(argv) == 'self.args', sp, k, 'argv handed to ptyprocess is self.args', witness=norm(k), kind='ast', tag='argv')
     kws = dict((kw.arg, norm(kw.value)) for kw in k.keywords if kw.arg)
     c.check(kws.get('env') == 'self.env', sp, k, 'env=self.env', witness=str(kws), kind='ast', tag='kw-env')
     c.check(kws.get('cwd') == 'self.cwd', sp, k, 'cwd=self.cwd', witness=str(kws), kind='ast', tag='kw-cwd')
